@@ -15,6 +15,8 @@ class Program:
         self.named = d['named']
         self.globals = d['globals']
         self.contract_files = d['contracts']
+        self.consts = d.get('consts', {})
+        self.pkgs = d.get('pkgs', [])
         self._tid = {}
         # short name index for type resolution in contracts: "pkgshort.Name" and full
         self.short_named = {}
